@@ -420,6 +420,13 @@ def LimitCmp.reached : LimitCmp → Nat → Nat → Bool
   | .gt, c, n => decide (c > n)
   | .unknown, _, _ => true
 
+/-- how `iterWalk` sizes its result slice before the scan -/
+inductive Prealloc
+  | eager    -- `make([]Node, 0, n)`: `n` cells are requested whatever the tree holds
+  | capped   -- `make([]Node, 0, min(n, b.t.Len()))` under the read lock
+  | unknown
+deriving DecidableEq, Repr
+
 structure Cfg where
   ascGe : ScanArgs      -- `AscendGreaterOrEqual`
   ascGt : ScanArgs      -- `AscendGreater`   (btree_ext.go)
@@ -427,13 +434,14 @@ structure Cfg where
   descLt : ScanArgs     -- `DescendLess`     (btree_ext.go)
   limitCmp : LimitCmp   -- `if c >= n { return false }` in `iterWalk`
   wrapperDegree : Nat   -- `btree.New(2)` in `NewBTree`
+  prealloc : Prealloc   -- the `make` in `iterWalk`
 deriving DecidableEq, Repr
 
 /-- the configurations for which the property theorems are proved -/
 def Proved (c : Cfg) : Prop :=
   c.ascGe = ⟨.asc, .pivot, .nil, true, false⟩ ∧ c.ascGt = ⟨.asc, .pivot, .nil, false, false⟩ ∧
   c.descLe = ⟨.desc, .pivot, .nil, true, false⟩ ∧ c.descLt = ⟨.desc, .pivot, .nil, false, false⟩ ∧
-  (c.limitCmp = .ge ∨ c.limitCmp = .eq) ∧ 2 ≤ c.wrapperDegree
+  (c.limitCmp = .ge ∨ c.limitCmp = .eq) ∧ 2 ≤ c.wrapperDegree ∧ c.prealloc = .capped
 instance : DecidablePred Proved := fun c => by unfold Proved; exact inferInstance
 
 /-- the scans whose tuple is not a parameter (vendored entry points; compared with `Facts.expected`) -/
@@ -462,10 +470,20 @@ structure Facts where
   walkBody : Bool          -- `if n == 0 { return nil }`; callback: limit test first, then `if filter(v) { append; c++ }; return true`
   cloneFreshCows : Bool    -- `cow1, cow2 := *t.cow, *t.cow; out := *t; t.cow = &cow1; out.cow = &cow2`
   cowGuards : Bool         -- `mutableFor`: `if n.cow == cow { return n }`; `freeNode`: `if n.cow == c`
+  -- whole normalised bodies, by group (a deviating function is named in the extractor's message)
+  bodyIterate : Bool       -- `(*node).iterate`
+  bodyFind : Bool          -- `items.find`
+  bodySlices : Bool        -- `items`/`children` `insertAt` `removeAt` `pop` `truncate`, `(*node).split`
+  bodyInsert : Bool        -- `(*node).insert`, `maybeSplitChild`, `ReplaceOrInsert`
+  bodyRemove : Bool        -- `(*node).remove`, `growChildAndRemove`, `deleteItem`, `Delete`, `DeleteMin`, `DeleteMax`
+  bodyLookup : Bool        -- `(*node).get`, `min`, `max`, `Get`, `Min`, `Max`, `Has`, `Len`, `maxItems`, `minItems`
+  bodyCow : Bool           -- `Clone`, `mutableFor`, `mutableChild`, `copyOnWriteContext.newNode/freeNode`, `FreeList.newNode/freeNode`, `NewFreeList`, `New`, `NewWithFreeList`, `Clear`, `reset`
+  bodyWrapper : Bool       -- every method of `tree.BTree` and `NewBTree` (`iterWalk`: one of the two recognised shapes)
 deriving DecidableEq, Repr
 
 def Facts.expected : Facts :=
-  ⟨true, true, true, true, true, true, true, true, true, true, true, true, true, true, true, true⟩
+  ⟨true, true, true, true, true, true, true, true, true, true, true, true, true, true, true, true,
+   true, true, true, true, true, true, true, true⟩
 
 /-! ### direct scans of `btree.BTree` -/
 
@@ -484,12 +502,24 @@ def walkCb (cmp : LimitCmp) (n : Nat) (f : Item → Bool) (s : Nat × List Item)
 inductive WalkOut
   | items (l : List Item)
   | panic                      -- `make([]Node, 0, n)` with a negative `n`
+  | fault                      -- the requested capacity cannot be allocated (`makeslice: cap out of range` / out of memory)
+  | itemsOrFault (l : List Item)  -- the request is satisfiable only if the machine has that much memory
 deriving DecidableEq, Repr
+
+/-- requests of up to 2^24 cells (256 MB of interface values) always succeed -/
+def allocSure : Int := 2 ^ 24
+/-- requests beyond 2^47 cells never do (the runtime's address-space bound is 2^48 bytes) -/
+def allocBound : Int := 2 ^ 47
 
 def iterWalk (c : Cfg) (t : Tree) (a : ScanArgs) (k : Int) (f : Item → Bool) (n : Int) : WalkOut :=
   if n = 0 then .items []
   else if n < 0 then .panic
-  else .items (t.scanWith a (some k) none (walkCb c.limitCmp n.toNat f) (0, [])).2
+  else
+    let res := (t.scanWith a (some k) none (walkCb c.limitCmp n.toNat f) (0, [])).2
+    match c.prealloc with
+    | .capped => .items res
+    | .eager => if n ≤ allocSure then .items res else if n ≤ allocBound then .itemsOrFault res else .fault
+    | .unknown => .fault
 
 def wNew (c : Cfg) : Tree := Tree.new c.wrapperDegree
 def wInsert (t : Tree) (x : Item) : Tree := (t.replaceOrInsert x).1
